@@ -101,6 +101,25 @@ def check_segments(n, changes):
             spread = f["spread_KIND_wise"](arr, np.arange(len(segs)) * 10)
             if spread.tolist() != [10 * seg_of[i] for i in range(n)]:
                 return f"{kind} spread {spread.tolist()}"
+            # array-valued per-segment data is spread along the first axis
+            for shape in ((1,), (3,), (2, 2)):
+                data_k = np.arange(len(segs) * int(np.prod(shape))).reshape((len(segs),) + shape)
+                got = f["spread_KIND_wise"](arr, data_k)
+                if got.shape != (n,) + shape or got.tolist() != [data_k[seg_of[i]].tolist() for i in range(n)]:
+                    return f"{kind} spread of per-segment data with shape {(len(segs),) + shape}: result shape {got.shape}"
+            # the axis is handed to the function as the keyword 'axis' (its second positional parameter may be something else)
+            got = f["apply_KIND_wise"](arr, data.astype(float), np.linalg.norm, axis=0)
+            if not np.allclose(got, [np.linalg.norm([float(data[i]) for i in s]) for s in segs]):
+                return f"{kind} apply np.linalg.norm(axis=0): {np.asarray(got).tolist()}"
+            got = f["apply_KIND_wise"](arr, arr.coord.astype(float), np.linalg.norm, axis=0)
+            if not np.allclose(got, [np.linalg.norm(arr.coord[s].astype(float), axis=0) for s in segs]):
+                return f"{kind} apply np.linalg.norm(axis=0) on coordinates"
+
+            def kwonly(x, *, axis=None):
+                return np.max(x, axis=axis)
+            got = f["apply_KIND_wise"](arr, arr.coord, kwonly, axis=0)
+            if got.tolist() != [arr.coord[s].max(axis=0).tolist() for s in segs]:
+                return f"{kind} apply with a function taking axis as keyword only"
         parts = list(f["KIND_iter"](arr))
         if [p.array_length() for p in parts] != [len(s) for s in segs]:
             return f"{kind} iter lengths"
